@@ -264,6 +264,27 @@ let expr_sim out =
     | _ -> Printf.fprintf out "BAD-LINE\n"
   done with End_of_file -> ()
 
+(* expr-c01: lines "<toks of x> | <toks of SQL(parse x)>": the hypotheses of the fragment round-trip theorem on real data: the tree the
+   parser model returns for x, positions erased, is canonical (canb 12), and its canonical spelling agrees with the tokens the real lexer
+   produced for the printed text (same_tokensb) *)
+let expr_c01 out =
+  let toks_of s = List.map parse_tok (List.filter (fun x -> x <> "") (String.split_on_char ';' (String.trim s))) in
+  try while true do
+    let line = input_line stdin in
+    match String.split_on_char '|' line with
+    | [a; b] ->
+      (match parse_expr (toks_of a) with
+       | Ok (e, rest) when List.length rest = 1 ->
+         let c = strip e in
+         if not (canb (nat_of_int 12) c) then Printf.fprintf out "NOT-CANONICAL\n"
+         else if same_tokensb (spell c @ [eof_tok]) (toks_of b) then Printf.fprintf out "OK\n"
+         else Printf.fprintf out "DIFF\n"
+       | Ok _ -> Printf.fprintf out "REST\n"
+       | Unsup -> Printf.fprintf out "UNSUP\n"
+       | _ -> Printf.fprintf out "ERR\n")
+    | _ -> Printf.fprintf out "BAD-LINE\n"
+  done with End_of_file -> ()
+
 (* bad-model: lines "entry hex => W:pos:end:n;...": the recovery handlers of Parse/Recovery.v run from the state of the recovery-mode
    scan whose current token starts at NodePos; the predicted (NodeEnd, number of tokens) must equal the Bad node of the real tree for
    one of the handlers that can produce a Bad node wrapped this way *)
@@ -352,5 +373,6 @@ let run (args : string list) : bool =
    | ["expr-model"] -> expr_model out; true
    | ["expr-sim"] -> expr_sim out; true
    | ["bad-model"] -> bad_model out; true
+   | ["expr-c01"] -> expr_c01 out; true
    | ["tree-walkmany"] -> tree_walk out 0 0 true; true
    | _ -> false)
